@@ -7,7 +7,7 @@ Open Scope N_scope.
 
 (* ---------- generic: a monitor over the trace of the model ---------- *)
 Definition tstep_of (k : caps) (s : state) (o : op) : tstep :=
-  {| t_op := o; t_outs := snd (step k s o); t_pre := s; t_post := fst (step k s o) |}.
+  {| t_op := o; t_outs := snd (step k s o); t_hooks := hook_events k s o; t_pre := s; t_post := fst (step k s o) |}.
 
 Lemma trace_cons k s o r :
   trace k s (o :: r) = tstep_of k s o :: trace k (fst (step k s o)) r.
@@ -98,9 +98,9 @@ Proof.
   cbn in I. apply clients_of_conn in I. congruence.
 Qed.
 
-Lemma refusal_refused_ok c outs pre post op :
+Lemma refusal_refused_ok c outs hk pre post op :
   refusal c outs -> existsb (fun r => sc_conn r =? c) (sn_clients post) = false ->
-  refused_ok c {| b_op := op; b_outs := outs; b_pre := pre; b_post := post |} = true.
+  refused_ok c {| b_op := op; b_outs := outs; b_hooks := hk; b_pre := pre; b_post := post |} = true.
 Proof.
   intros R E. unfold refused_ok. cbn [b_outs b_post]. rewrite E. cbn [negb].
   destruct R as [->|(code & NZ & ->)]; cbn [pkts_to closes flat_map app].
@@ -149,7 +149,7 @@ Theorem m13_step_ok k i m s o r :
 Proof.
   intros [W ST SUB FR].
   pose proof (step_shape k s o W) as SH.
-  unfold tstep_of, obs_of. cbn [t_op t_outs t_pre t_post].
+  unfold tstep_of, obs_of. cbn [t_op t_outs t_hooks t_pre t_post].
   destruct (step k s o) as [s' outs] eqn:STEP. cbn [fst snd].
   destruct SH as (W' & (EU & EH & EO) & SH).
   unfold m13_step. cbn [b_outs b_op].
@@ -183,14 +183,14 @@ Proof.
       rewrite V2. cbn [app].
       assert (HN : hasobj s' c = false) by (rewrite HH; exact HS).
       assert (V3 : match o with
-                   | OBadFirst c0 _ => if refused_ok c0 {| b_op := o; b_outs := outs; b_pre := snap_of s; b_post := snap_of s' |}
+                   | OBadFirst c0 _ => if refused_ok c0 {| b_op := o; b_outs := outs; b_hooks := hook_events k s o; b_pre := snap_of s; b_post := snap_of s' |}
                                        then [] else [mkv V13_invalid i c0 []]
-                   | OConnect c0 _ p _ id => if connect_ok_spec p || refused_ok c0 {| b_op := o; b_outs := outs; b_pre := snap_of s; b_post := snap_of s' |}
+                   | OConnect c0 _ p _ id => if connect_ok_spec p || refused_ok c0 {| b_op := o; b_outs := outs; b_hooks := hook_events k s o; b_pre := snap_of s; b_post := snap_of s' |}
                                              then [] else [mkv V13_invalid i c0 id]
                    | _ => [] end = []).
       { destruct o; cbn [is_new_conn] in NEW; try discriminate;
         destruct (memN c0 (st_used s)); try discriminate; inversion NEW; subst c0;
-        rewrite (refusal_refused_ok c outs _ _ _ R (no_client_conn s' c HN)); [rewrite orb_true_r|]; reflexivity. }
+        rewrite (refusal_refused_ok c outs _ _ _ _ R (no_client_conn s' c HN)); [rewrite orb_true_r|]; reflexivity. }
       rewrite V3. split; [|reflexivity].
       split; cbn [a_started]; [exact W'| | |].
       * intros c' H. apply PB, ST. rewrite <- HH. exact H.
@@ -234,9 +234,9 @@ Proof.
     cbn [app].
     pose proof (fresh_old_conn s o r NEW FR) as FR'.
     assert (V3 : match o with
-                 | OBadFirst c0 _ => if refused_ok c0 {| b_op := o; b_outs := outs; b_pre := snap_of s; b_post := snap_of s' |}
+                 | OBadFirst c0 _ => if refused_ok c0 {| b_op := o; b_outs := outs; b_hooks := hook_events k s o; b_pre := snap_of s; b_post := snap_of s' |}
                                      then [] else [mkv V13_invalid i c0 []]
-                 | OConnect c0 _ p _ id => if connect_ok_spec p || refused_ok c0 {| b_op := o; b_outs := outs; b_pre := snap_of s; b_post := snap_of s' |}
+                 | OConnect c0 _ p _ id => if connect_ok_spec p || refused_ok c0 {| b_op := o; b_outs := outs; b_hooks := hook_events k s o; b_pre := snap_of s; b_post := snap_of s' |}
                                            then [] else [mkv V13_invalid i c0 id]
                  | _ => [] end = []).
     { destruct o; try reflexivity; exfalso; cbn [is_new_conn fresh_conns] in *;
